@@ -11,7 +11,7 @@ from .callgraph import ext_name
 from .dag import T, walk, show
 from .model import FunctionInfo
 from .report import Ctx
-from .tensor import Typer, KIND, MASKS, MODEL_ARRAYS, const_int, kwarg_t, PRESERVE_METHODS, PRESERVE_FUNCS
+from .tensor import Typer, KIND, MASKS, MODEL_ARRAYS, const_int, kwarg_t, PRESERVE_METHODS, PRESERVE_FUNCS, unzip
 
 
 def loc_of(t: T, default_fi: FunctionInfo):
@@ -89,6 +89,33 @@ def check_einsums(ctx: Ctx, term: T, typer: Typer, entry: FunctionInfo, rule1="T
     return n
 
 
+def check_elementwise(ctx: Ctx, term: T, typer: Typer, entry: FunctionInfo, rule="TEN-2", seen: Optional[set] = None) -> int:
+    """adding / subtracting two (state x action ...) arrays whose state axes are the source axis in one and the
+    successor axis in the other mixes a function of s with a function of s'."""
+    n = 0
+    seen = set() if seen is None else seen
+    for x in walk(term):
+        if x.op != "binop" or x.args[0] not in ("+", "-"):
+            continue
+        ra, rb = typer.roles(x.args[1]), typer.roles(x.args[2])
+        if ra is None or rb is None or len(ra) < 2 or len(rb) < 2 or "A" not in ra or "A" not in rb:
+            continue
+        k = max(len(ra), len(rb))
+        pa = ("1",) * (k - len(ra)) + tuple(ra)
+        pb = ("1",) * (k - len(rb)) + tuple(rb)
+        fi, node = loc_of(x, entry)
+        key = (fi.qualname, getattr(node, "lineno", 0), getattr(node, "col_offset", 0), getattr(node, "end_lineno", 0),
+               getattr(node, "end_col_offset", 0), "ew")
+        if key in seen:
+            continue
+        seen.add(key)
+        n += 1
+        bad = [(a, b) for a, b in zip(pa, pb) if {a, b} == {"S", "S2"}]
+        ctx.check(not bad, rule, fi, node, f"elementwise {x.args[0]} of arrays with roles {ra} and {rb}", "",
+                  f"an array indexed by the source state {ra} is combined elementwise with one indexed by the successor state {rb}")
+    return n
+
+
 # ------------------------------------------------------------------------------------------------ TEN-3 masks
 def _mask_name(typer: Typer, t: T, depth: int = 0) -> Optional[str]:
     """name of the current-state mask a term is (possibly negated / cast / sliced with None)."""
@@ -112,10 +139,15 @@ def check_mask_stores(ctx: Ctx, term: T, typer: Typer, entry: FunctionInfo, rule
     for x in walk(term):
         if x.op == "where":
             idx, val, old = x.args
+            r_old = typer.roles(old)
             if idx.op == "viewidx":
+                vi = idx.args[2] if len(idx.args) > 2 else None
+                if vi is not None and not (vi.op == "const" and vi.args[0] is None):
+                    r_old = typer.index(r_old, vi)      # the store goes through a view X[i]
+                elif vi is not None:
+                    r_old = None
                 idx = idx.args[1]
             items = list(idx.args[0]) if idx.op == "tuple" else [idx]
-            r_old = typer.roles(old)
             pos = 0
             for it in items:
                 if it.op == "const" and it.args[0] is None:
@@ -224,10 +256,14 @@ def numpy_major() -> Optional[int]:
 def check_solves(ctx: Ctx, term: T, typer: Typer, entry: FunctionInfo, rule="TEN-5") -> int:
     n = 0
     major = numpy_major()
+    seen_solve = set()
     for c in calls_of(term, {"numpy.linalg.solve"}):
         if len(c.args[1]) != 2:
             continue
         fi, node = loc_of(c, entry)
+        if (fi.qualname, getattr(node, "lineno", 0)) in seen_solve:
+            continue
+        seen_solve.add((fi.qualname, getattr(node, "lineno", 0)))
         ra, rb = typer.roles(c.args[1][0]), typer.roles(c.args[1][1])
         n += 1
         inst = "np.linalg.solve(A, b)"
@@ -269,9 +305,24 @@ def monomials(t: T, depth: int = 0) -> List[List[T]]:
     if t.op == "unary" and t.args[0] in ("-", "+"):
         return monomials(t.args[1], depth + 1)
     if t.op == "where":
-        return monomials(t.args[2], depth + 1)
+        val, old = t.args[1], t.args[2]
+        if val.op != "const" and _allocish(old):
+            return monomials(val, depth + 1)        # X = zeros(...); X[i] = v  (batch stacking)
+        return monomials(old, depth + 1)
     if t.op == "inlined":
         return monomials(t.args[1], depth + 1)
+    if t.op == "proj":
+        return monomials(t.args[0], depth + 1)
+    if t.op == "elem":
+        u = unzip(t)
+        if u is not None:
+            return monomials(u, depth + 1)
+    if t.op == "phi":
+        # X = zeros(...); loop: X = <expr>  -> look through to the single real definition
+        alts = [a for a in t.args[0] if a.op not in ("prev", "undef")
+                and not (a.op == "call" and ext_name(a.args[0]) in ("numpy.zeros", "numpy.ones", "numpy.empty", "torch.zeros"))]
+        if len(alts) == 1:
+            return monomials(alts[0], depth + 1)
     if t.op == "subscript":
         inner = monomials(t.args[0], depth + 1)
         return inner if len(inner) > 1 or (inner and inner[0] and inner[0][0] is not t.args[0]) else [[t]]
@@ -300,19 +351,37 @@ def monomials(t: T, depth: int = 0) -> List[List[T]]:
     return [[t]]
 
 
-def is_discount(t: T) -> bool:
+def _allocish(t: T) -> bool:
+    if t.op == "call" and ext_name(t.args[0]) in ("numpy.zeros", "numpy.ones", "numpy.empty", "torch.zeros"):
+        return True
+    if t.op == "phi":
+        return all(a.op in ("prev", "undef") or _allocish(a) for a in t.args[0])
+    return False
+
+
+def is_discount(t: T, typer: Optional[Typer] = None) -> bool:
     if t.op == "attr" and t.args[1] == "discount_rate":
         return True
     if t.op == "param" and t.args[1] in ("discount_rate", "gamma"):
         return True
+    if typer is not None and t.op in ("phi", "where"):
+        v = typer.stacked_value(t)
+        if v is not None and v is not t:
+            return is_discount(v, typer)
     return False
 
 
 def classify_monomial(typer: Typer, m: List[T]) -> Dict[str, int]:
     d = {"disc": 0, "T": 0, "R": 0, "other": 0, "eye": 0}
     for a in m:
-        if is_discount(a):
+        if is_discount(a, typer):
             d["disc"] += 1
+            continue
+        core = a
+        while core.op == "subscript":
+            core = core.args[0]
+        if core.op == "call" and ext_name(core.args[0]) in ("numpy.eye", "torch.eye"):
+            d["eye"] += 1
             continue
         b = typer.base_array(a)
         if b is None and a.op == "subscript":
